@@ -3,7 +3,7 @@ import XmlRsModel.XmlDoc
     `XmlElement::attributes`, `XmlAttribute::normalized_value`, `attr_value_from_name`, `normalize_ws`. -/
 namespace XmlRs
 
-def xmlnsQ (q : QN) : Bool := q.pre == some xmlnsS || q.loc == xmlnsS
+def xmlnsQ (q : QN) : Bool := q.pre == some xmlnsS || (q.pre == none && q.loc == xmlnsS)
 
 /-- all attribute definitions for an element type: every ATTLIST for that name is consulted, the
     first definition of an attribute name is binding (XML 1.0 3.3) -/
